@@ -136,6 +136,7 @@ var c18Stmts = []c18Stmt{
 	{"insert-reordered-two-rows", "INSERT INTO t (a, id, b) VALUES (?, ?, ?), (?, ?, 5)", 5, true, false, map[int]int64{1: 30, 4: 40}},
 	{"upsert-new-row", "INSERT INTO t (id, a, b) VALUES (?, ?, ?) ON DUPLICATE KEY UPDATE a = ?", 4, true, false, map[int]int64{0: 30}},
 	{"upsert-existing-row", "INSERT INTO t (id, a, b) VALUES (?, ?, ?) ON DUPLICATE KEY UPDATE a = ?", 4, true, false, map[int]int64{0: 10}},
+	{"upsert-mixed-two-rows", "INSERT INTO t (id, a, b) VALUES (?, ?, ?), (?, ?, ?) ON DUPLICATE KEY UPDATE a = ?", 7, true, false, map[int]int64{0: 10, 3: 30}},
 	{"update-composite-key", "UPDATE t SET a = ? WHERE id = ? AND uid = ?", 3, true, true, nil},
 	{"delete-composite-key", "DELETE FROM t WHERE uid = ?", 1, true, true, nil},
 	{"insert-composite-reordered", "INSERT INTO t (uid, a, id) VALUES (?, ?, ?)", 3, true, true, map[int]int64{0: 31, 2: 30}},
@@ -268,7 +269,7 @@ func c18Run(checkImages, checkLocks bool) {
 	st := c18Stmts[k]
 	w := c18Setup(st.composite, c18AutoKey(st.name))
 	args := make([]driver.NamedValue, st.nargs)
-	names := []string{"arg0", "arg1", "arg2", "arg3", "arg4", "arg5"}
+	names := []string{"arg0", "arg1", "arg2", "arg3", "arg4", "arg5", "arg6"}
 	for i := range args {
 		if kv, ok := st.keyArgs[i]; ok {
 			args[i] = driver.NamedValue{Ordinal: i + 1, Value: kv}
@@ -319,10 +320,9 @@ func c18Run(checkImages, checkLocks bool) {
 		return
 	}
 	befores, afters := w.c.txCtx.RoundImages.BeofreImages(), w.c.txCtx.RoundImages.AfterImages()
-	if strings.HasPrefix(st.name, "multi-") {
-		// the batch executors may record one image per table or several: compare their union
-		befores, afters = []*types.RecordImage{c18Union(befores)}, []*types.RecordImage{c18Union(afters)}
-	}
+	// a statement may be recorded as one image pair or several (batches; upserts that update
+	// some rows and insert others): the images are compared as their union
+	befores, afters = []*types.RecordImage{c18Union(befores)}, []*types.RecordImage{c18Union(afters)}
 	vrt.Assert(len(befores) == 1 && len(afters) == 1, "c18/one-image-pair/"+st.name)
 	if len(befores) != 1 || len(afters) != 1 {
 		return
@@ -451,7 +451,7 @@ func VerifC16InGtx() {
 		twin.rows = append(twin.rows, aRow{cells: append([]int64(nil), r.cells...), present: r.present})
 	}
 	args := make([]driver.NamedValue, st.nargs)
-	names := []string{"arg0", "arg1", "arg2", "arg3", "arg4", "arg5"}
+	names := []string{"arg0", "arg1", "arg2", "arg3", "arg4", "arg5", "arg6"}
 	for i := range args {
 		if kv, ok := st.keyArgs[i]; ok {
 			args[i] = driver.NamedValue{Ordinal: i + 1, Value: kv}
